@@ -23,7 +23,10 @@ func VerifH_SYS_C08() {
 	b.allowWriteErr = verifParam("werr", 0) == 1
 	b.maxDials = 2*budget + 3
 	always := verifChoice("alwaysresub", 2) == 1
-	b.downgrade = verifChoice("downgrade", 2) == 1
+	narrow := verifParam("narrow", 0) == 1 // one filter, one QoS, no downgrade, all calls after Connect: room for withpub within the quick budget
+	if !narrow {
+		b.downgrade = verifChoice("downgrade", 2) == 1
+	}
 	verifSetRand(100)
 	rc := &RetryClient{}
 	unit := time.Second
@@ -34,8 +37,13 @@ func VerifH_SYS_C08() {
 	verifAssert(err == nil, "SYS.new_client")
 	var calls []c08Call
 	for i := 0; i < nreq; i++ {
-		c := c08Call{sub: verifChoice("op", 2) == 0, f: byte('a' + verifChoice("filter", 2))}
-		if c.sub {
+		c := c08Call{sub: verifChoice("op", 2) == 0, f: 'a', q: 1}
+		if !narrow {
+			c.f = byte('a' + verifChoice("filter", 2))
+		}
+		if !c.sub {
+			c.q = 0
+		} else if !narrow {
 			c.q = byte(verifChoice("qos", 3))
 		}
 		calls = append(calls, c)
@@ -127,7 +135,10 @@ func VerifH_SYS_C08() {
 		}
 		c.accepted = err == nil
 	}
-	nb := verifChoice("nbefore", len(calls)+1)
+	nb := 0
+	if !narrow {
+		nb = verifChoice("nbefore", len(calls)+1)
+	}
 	for i := 0; i < nb; i++ {
 		submit(&calls[i])
 	}
